@@ -1,13 +1,17 @@
 -- written by bin/mkroundpins from /repo at commit 472862f
 namespace Mps.SrcPins.SrcFrostSign
 def f_round1 : List String := [
+  "decl:round1 09b93f9306ea6fb1e0d1ea58",
   "round1.VerifyMessage 802d63134a23acda92d7513c",
   "round1.StoreMessage 802d63134a23acda92d7513c",
+  "decl:deriveHashKeyContext a2785d1c8221b9358da43f12",
   "round1.Finalize 966ed0679a96b7c0f1fc17e0",
   "round1.MessageContent f5267592076e4dbeca0c29aa",
   "round1.Number b4fc1b1a37769dc302afcc74"
 ]
 def f_round2 : List String := [
+  "decl:round2 152d41431256e37d3d57c4ae",
+  "decl:broadcast2 54988646e70e35b2f0643910",
   "round2.StoreBroadcastMessage 5492ae52978ac12527d21bf6",
   "round2.VerifyMessage 802d63134a23acda92d7513c",
   "round2.StoreMessage 802d63134a23acda92d7513c",
@@ -18,6 +22,8 @@ def f_round2 : List String := [
   "round2.Number afbf3b2d17fee1f6ce5e2421"
 ]
 def f_round3 : List String := [
+  "decl:round3 0813779a14d889db87e47363",
+  "decl:broadcast3 392c4901731148eb8a8fd0f1",
   "round3.StoreBroadcastMessage 79f7dc8f62b98c27a92490b1",
   "round3.VerifyMessage 802d63134a23acda92d7513c",
   "round3.StoreMessage 802d63134a23acda92d7513c",
@@ -28,11 +34,14 @@ def f_round3 : List String := [
   "round3.Number 79c98029d401cf189a9ed9a5"
 ]
 def f_sign : List String := [
+  "decl:protocolID,protocolIDTaproot,protocolRounds 5f4ad6fa675d7915e0531221",
   "StartSignCommon b9b4bac38db042dab864641a"
 ]
 def f_types : List String := [
+  "decl:messageHash 0599e45f8791e1bb4ec13be7",
   "messageHash.WriteTo 00147217c1af194a20131f25",
   "messageHash.Domain 7732b80843de9ae38f9c45f2",
+  "decl:Signature a5ad2c0c796c2789e40d8ed4",
   "Signature.Verify 99723aa42af93fc7819255ab"
 ]
 def files : List String := [
